@@ -3,8 +3,8 @@ SPEC = {
     "id": "C02",
     "level": "other",
     "sidecars": ["utils"],
-    "functions": [U + "normpath", U + "decode_punycode_hostname", "ural/canonicalize_url.py:canonicalize_url"],
-    "function_sidecars": {"ural/canonicalize_url.py:canonicalize_url": ["canonicalize_url"]},
+    "functions": ['ural/utils.py:unsplit_netloc', U + "normpath", U + "decode_punycode_hostname", "ural/canonicalize_url.py:canonicalize_url"],
+    "function_sidecars": {'ural/utils.py:unsplit_netloc': ["utils"], "ural/canonicalize_url.py:canonicalize_url": ["canonicalize_url"]},
     "bounded": ["bcheck.c02"],
     "explanation": (
         "Deductive extra added later: decode_punycode_hostname works label by label, in order, touches only labels starting with 'xn--' (any case) and hands them to the idna codec with the header lower-cased; every other label is kept as is (one spelling per label, no whole-host decoding). Deciding step is BOUNDED: relational clauses between calls of the real canonicalize_url - idempotence, the mode round trips "
